@@ -21,17 +21,18 @@ import (
 )
 
 type c06Config struct {
-	kp        *vfk.KeyPair
-	attrs     []*big.Int // true attribute values for non-blind positions; blind positions unused
-	classes   []string
-	blind     []int // 0-based indices into attrs
-	keyshare  bool
-	witness   bool
-	secret    *big.Int
-	kssSecret *big.Int
-	ctx       *big.Int
-	nonce1    *big.Int
-	nonce2    *big.Int
+	kp            *vfk.KeyPair
+	attrs         []*big.Int // true attribute values for non-blind positions; blind positions unused
+	classes       []string
+	blind         []int // 0-based indices into attrs
+	keyshare      bool
+	witness       bool
+	lastBaseBlind bool
+	secret        *big.Int
+	kssSecret     *big.Int
+	ctx           *big.Int
+	nonce1        *big.Int
+	nonce2        *big.Int
 }
 
 func (c *c06Config) String() string {
@@ -162,13 +163,24 @@ func TestVF_C06(t *testing.T) {
 		c.witness = rapid.Bool().Draw(rt, "witness")
 		c.keyshare = rapid.Bool().Draw(rt, "keyshare")
 		c.kp = drawKey(rt, true, true)
-		n := rapid.IntRange(1, 6).Draw(rt, "n")
+		// attribute count: up to every base of the key (the witness value takes the last one)
+		nmax := len(c.kp.Pk.R) - 1
+		if c.witness {
+			nmax--
+		}
+		n := rapid.IntRange(1, nmax).Draw(rt, "n")
+		if rapid.IntRange(0, 3).Draw(rt, "fill") == 0 {
+			n = nmax // all bases in use
+		}
 		for i := 0; i < n; i++ {
 			v, cl := genAttr(rt, fmt.Sprintf("a%d", i), c.kp.Pk.Params.Lm)
 			c.attrs = append(c.attrs, v)
 			c.classes = append(c.classes, cl)
 			if rapid.IntRange(0, 2).Draw(rt, fmt.Sprintf("blind%d", i)) == 0 {
 				c.blind = append(c.blind, i)
+				if i == len(c.kp.Pk.R)-2 {
+					c.lastBaseBlind = true
+				}
 			}
 		}
 		c.secret = genSecret(rt, "secret")
@@ -178,6 +190,9 @@ func TestVF_C06(t *testing.T) {
 		c.nonce2 = new(big.Int).SetBytes(rapid.SliceOfN(rapid.Byte(), 1, 10).Draw(rt, "n2"))
 		c.nonce2.Add(c.nonce2, bi(2))
 		cfgClass := fmt.Sprintf("blind=%d/keyshare=%v/witness=%v/bits=%d", len(c.blind), c.keyshare, c.witness, c.kp.Bits)
+		if n == nmax {
+			rec.Class(fmt.Sprintf("all-bases-in-use/last-base-random-blind=%v", c.lastBaseBlind), 1)
+		}
 		det := func(what string) map[string]any { return map[string]any{"config": c.String(), "deviation": what} }
 
 		run, cred, sig, err := c06Honest(c)
